@@ -93,6 +93,17 @@ def parseOp (l : Line) : Option Op :=
   | "sp.at" => some (.spAt a) | "sp.front" => some .spFront | "sp.back" => some .spBack
   | "sp.first" => some (.spFirst a) | "sp.last" => some (.spLast a) | "sp.subspan" => some (.spSubspan a b)
   | "ar.at" => (sizeArg l "i").map fun i => .arAt k i
+  | "ar.front" => some (.arFront k) | "ar.back" => some (.arBack k)
+  | "str.insert" => some (.strInsert k a xs)
+  | "str.insert_fill" => some (.strInsertFill a b ((l.int? "v").getD 120))
+  | "str.erase_idx" => some (.strEraseIdx a b)
+  | "linalg" => match l.str? "fn" with
+    | some fn => some (.nullChecks (SC.linalgChecks fn ((sizeArg l "nx").getD 0) ((sizeArg l "ny").getD 0) ((sizeArg l "nz").getD 0)
+        ((sizeArg l "r").getD 0) ((sizeArg l "c").getD 0)))
+    | none => none
+  | "to_string" => match l.int? "x", l.nat? "cap" with
+    | some x, some cap => some (.nullChecks (SC.toStringChecks cap x))
+    | _, _ => none
   | "str.ctor_ptr" => some (.strCtorPtr xs a)
   | "str.ctor_fill" => some (.strCtorFill a ((l.int? "v").getD 120))
   | "str.op_assign" => some (.strOpAssign xs)
@@ -124,7 +135,8 @@ def initSt (l : Line) : St :=
   let e := (l.list? "e").getD []
   let fam := (l.op.splitOn ".").headD ""
   let cap :=
-    if fam == "sv" || fam == "iv" || fam == "str" then (l.nat? "cap").getD 0
+    if fam == "sv" || fam == "iv" || fam == "str" || fam == "ar" then (l.nat? "cap").getD 0
+    else if l.op == "linalg" || l.op == "to_string" then 0
     else if l.op == "set.ctor" then 3
     else if l.op == "day" || l.op == "month" then 1
     else e.length
